@@ -75,12 +75,14 @@ def refine_check(spec, exprs, refines, inst, poly=True):
                     tau = [float(t) for t in meth.tau]
                     Xc = ca.MX(meth.Xc[k][l])
                     C = ca.DM(meth.C)
+                    # Gauss-Legendre nodes are irrational: the table is exact only up to rounding (A-FLOAT)
+                    eq = nlp.prove_close if spec.scheme == "legendre" else nlp.prove_equal
                     for j, tj in enumerate(tau):
-                        nlp.prove_equal(base + ":through-helper-state[%d]" % j, poly_at(co, h * tj), Xc[:, j + 1])
+                        eq(base + ":through-helper-state[%d]" % j, poly_at(co, h * tj), Xc[:, j + 1])
                         slope = 0
                         for r in range(len(tau) + 1):
                             slope = slope + Xc[:, r] * C[r, j]
-                        nlp.prove_equal(base + ":slope-at-collocation-time[%d]" % j, poly_der_at(co, h * tj), slope / h)
+                        eq(base + ":slope-at-collocation-time[%d]" % j, poly_der_at(co, h * tj), slope / h)
                     c.prove(base + ":degree", ca.MX(co).shape[1] - 1 == spec.degree)
     # ---- refined samples ----------------------------------------------------------------------
     for ex, e in built:
@@ -191,6 +193,14 @@ def tasks(tier, prop="C08"):
                     refine_check(spec, exprs(), (2, 3), label, poly=(prop == "C08"))
                 out.append(Task(label, fn, kind="bounded", bound=dict(method=meth, intg=intg, N=N, M=M, grid=g, T=list(Tk), refine=[2, 3])))
     if prop == "C08":
+        # Gauss-Legendre collocation: numeric horizon (so that the step length cancels in normal form) and tolerance
+        for degree in (2, 3) if tier != "thorough" else (1, 2, 3, 4):
+            label = "C08/DC-legendre-d%d-N2-M2-refine" % degree
+            def fn(degree=degree, label=label):
+                spec = Spec(method="DC", N=2, M=2, degree=degree, scheme="legendre", grid=dict(kind="uniform"), T=("fixed", 1.5), t0=("fixed", 0.25),
+                            params=P, ode=E("f", None, ("x", "u", "t", "p", "pc")), label=label)
+                refine_check(spec, exprs(), (2,), label)
+            out.append(Task(label, fn, kind="bounded", bound=dict(method="DC", scheme="legendre", degree=degree, N=2, M=2, T=1.5, t0=0.25, refine=[2], tolerance=1e-9)))
         for meth, intg in (("MS", "rk"), ("DC", None), ("SS", "expl_euler")):
             for gname, g, Tk in grids_all:
                 if tier != "thorough" and gname not in ("uniform", "geometric", "geometric-Tfree"):
